@@ -33,6 +33,10 @@ func toLib(t *txref.Tx) *bt.Tx {
 	for _, o := range t.Outs {
 		tx.Outputs = append(tx.Outputs, &bt.Output{Satoshis: o.Sats, LockingScript: bscript.NewFromBytes(append([]byte(nil), o.Script...))})
 	}
+	// all scripts live side by side in one buffer: a library function that appends to a script
+	// it should only read then corrupts the neighbouring scripts, which every check that
+	// compares the transaction with the reference afterwards sees
+	packScripts(tx)
 	return tx
 }
 
